@@ -564,7 +564,15 @@ func c19Coq(c *c19Case) string {
 	for _, e := range c.Trace {
 		fmt.Fprintf(&sb, "%02x%04x", e[0], e[1]&0xffff)
 	}
-	return fmt.Sprintf("mkcase %d %s (unhex \"%s\"%%hex)", c.Sc.W, coqBool(c.Complete), sb.String())
+	// FIFO check (one worker: start order = hand-over order = send order); cubic in the number of jobs, so short traces only
+	calls := 0
+	for _, e := range c.Trace {
+		if e[0] == c19KSubCall {
+			calls++
+		}
+	}
+	fifo := c.Sc.W == 1 && calls <= 200
+	return fmt.Sprintf("mkcase %d %s %s (unhex \"%s\"%%hex)", c.Sc.W, coqBool(c.Complete), coqBool(fifo), sb.String())
 }
 
 func init() {
@@ -575,7 +583,7 @@ func init() {
 			Require:  "From TarsV Require Import Base.Hex Conc.Gpool.",
 			CaseType: "tcase",
 			Mismatch: "c19_mismatch",
-			Corr:     "Gpool.accepts / accepts_complete (specification machine of the pool) on the recorded event trace",
+			Corr:     "Gpool.accepts / accepts_complete (specification machine of the pool) on the recorded event trace; with one worker also Gpool.fifo1_ok (start order respects send order)",
 			Rule:     "distinct (W, Q, mode, job duration class, GOMAXPROCS, submitters bucket) configurations whose trace contains at least one job start and a Release",
 			Shard:    12,
 			Gen:      c19Gen,
